@@ -165,7 +165,8 @@ impl C02 {
 
     fn scale(&mut self, ctx: &Ctx) -> &Vec<(String, String)> {
         if self.scale.is_none() {
-            self.scale = Some(crate::scale::programs_for(ctx.flavour, ctx.tier));
+            // (not the sizes around 65 536: they only reach the documented limits, after 20 s of compiling each — C01 has them)
+            self.scale = Some(crate::scale::programs_for(ctx.flavour, Tier::Quick));
         }
         self.scale.as_ref().unwrap()
     }
